@@ -183,6 +183,29 @@ def run(plan: dict[str, Any]) -> dict[str, Any]:
     if not ok:
         R.violate("C16.rejected-do-not-advance", "original-rejected-after-tampered-variants",
                   f"after all tampered variants the untouched frame delivered {[o.hex() for o in out]} {esc!r}")
+    # pass C: the receiver has now accepted a frame of this sender for this address; the sender's next frame under every flip
+    # of a protected field is rejected all the same (nothing learned from an accepted frame may vouch for a later one), and
+    # the untouched next frame is accepted
+    if ok:
+        good2 = D.secure_frame(key, apdu, seq + 1, src, ga, scf=scf, ctrl1=ctrl1, hops=cfg["hops"])
+        for off in range(4, len(good2)):
+            for bit in range(8):
+                fld = field_of(off, bit, len(good2))
+                if fld in PROTECTED:
+                    b = bytearray(good2)
+                    b[off] ^= 1 << bit
+                    out, esc = deliver(bytes(b), fresh=False)
+                    if esc is not None:
+                        R.violate("C16.no-raise", f"{type(esc).__name__}:{fld}", f"pass C flip octet {off} bit {bit}: {esc!r}")
+                    elif out:
+                        R.violate("C16.tamper-rejected", f"delivered-after-an-accepted-frame:flip-in:{fld}",
+                                  f"after the genuine frame {good.hex()} was accepted, its successor with octet {off} bit {bit} "
+                                  f"({fld}) flipped delivered {[o.hex() for o in out]}")
+        out, esc = deliver(good2, fresh=False)
+        if out != [apdu] or esc is not None:
+            R.violate("C16.rejected-do-not-advance", "successor-rejected-after-tampered-variants",
+                      f"the untouched successor frame delivered {[o.hex() for o in out]} {esc!r}")
+        R.probes["pass_C_runs"] += 1
     R.probes["variants_delivered"] += stats["variants"]
     R.probes["undecoded_data_secure_counter"] += rx.xknx.connection_manager.undecoded_data_secure
     return R.result(nontrivial=ok, abstract=[cfg["algo"], ln, cfg["hops"], cfg["prio"], cfg["repeat"]])
